@@ -60,16 +60,17 @@ _CODE = {}
 _JOINS = [0]
 
 
-def _sym_join(sep, items):
-    """str.join that accepts opaque strings: the items are consumed (an iterator is exhausted) and the result is
-    another opaque string; everything else behaves as the separator's own join."""
-    if isinstance(sep, str):
-        items = list(items)
+def _sym_join(sep, *args):
+    """<sep>.join(...) as rewritten by the loader.  For a text separator and one iterable: str.join that accepts
+    opaque strings (the items are consumed - an iterator is exhausted - and the result is another opaque string).
+    Anything else (os.path.join, bytes-like separators, several arguments) is the receiver's own join."""
+    if isinstance(sep, str) and len(args) == 1:
+        items = list(args[0])
         if any(getattr(i, "_ostr", False) or isinstance(i, SymStr) for i in items):
             _JOINS[0] += 1
             return OStr("join#%d(%s)" % (_JOINS[0], ",".join(getattr(i, "name", "s") if not isinstance(i, str) else repr(i) for i in items)))
         return sep.join(items)
-    return sep.join(items)
+    return sep.join(*args)
 
 
 _LOGGING = []
